@@ -114,6 +114,10 @@ def run(ctx):
         def analyse(evs, key, final=None):
             got = [e for e in evs if e[0] in ("iflet", "arm") and "Receiver::recv(errors)" in e[1]]
             is_exit = [e for e in evs if e[0] == "arm" and e[1] == "err"]
+            # `matches!(err, RuntimeError::Exit)` / `err == RuntimeError::Exit` arrive as an equality branch: same evidence
+            for e in evs:
+                if e[0] == "branch" and e[1] == "PartialEq::eq(err, Exit)":
+                    is_exit.append(("arm", "err", ("Exit" if e[2] else "_",), 0))
             calls = [strip_generics(e[1]) for e in evs if e[0] == "call"]
             ncall = sum(1 for c in calls if c.endswith("ChangeableFn::call"))
             ncrit = sum(1 for c in calls if c.endswith("ErrorHook::handle_crit"))
